@@ -20,6 +20,10 @@ func runSeq(rep *explore.Report, prop, tier string) {
 		return
 	}
 	lo, hi := sizes(tier)
+	faithful, why := BuildFaithful()
+	if !faithful {
+		rep.Set("accelerator", "state reconstruction through the exported setters is not faithful on this tree ("+why+"): every table size is explored by genuine replays instead (capped at 1.5M states per size), the sparse large tables are skipped")
+	}
 	// first, alone in the process and on one worker: small tables with a second seat manager living
 	// beside them (created and driven along a script after every operation of the table under test)
 	before := rep.ViolationCount()
@@ -41,7 +45,10 @@ func runSeq(rep *explore.Report, prop, tier string) {
 			dev = 2
 		}
 		c := &Check{Property: prop, Rep: rep, N: n, DevBound: dev, MaxState: 6000000}
-		if n <= 4 {
+		if !faithful {
+			c.MaxState = 1500000
+		}
+		if n <= 4 || !faithful {
 			c.RunReplay() // genuine replays on one object: keeps pointer identity and replaced records
 		} else {
 			c.Run()
@@ -73,6 +80,9 @@ func runSeq(rep *explore.Report, prop, tier string) {
 			n    int
 			only []int
 		}{12, []int{3, 10, 11}})
+	}
+	if !faithful {
+		sparse = nil
 	}
 	for _, sp := range sparse {
 		c := &Check{Property: prop, Rep: rep, N: sp.n, DevBound: 0, MaxState: 6000000, Only: sp.only}
